@@ -32,6 +32,13 @@ HasRun(live, c, n) == \E a \in Lo(c) .. (Hi(c) - 1) : Fits(live, c, a, n)
 ClientCfg(total, logins, reserved, io, client) ==
     [size |-> total \div logins, pos |-> reserved, off |-> client * (total \div logins) + io]
 
+\* The number of logins that divides the spaces is the one the SERVER reported when the client registered
+\* (/done /notify clientID maxLogins); the client's local option counts only if the server reported none
+\* (reported = 0: supernova, or a client that never registered).  Same rule for all three spaces.
+EffLogins(local, reported) == IF reported = 0 THEN local ELSE reported
+ClientCfgR(total, local, reported, reserved, io, client) ==
+    ClientCfg(total, EffLogins(local, reported), reserved, io, client)
+
 (* ---- the properties, as predicates on the abstract state ---- *)
 Disjoint(live) == \A r1, r2 \in live : r1 # r2 => Cells(r1.a, r1.n) \cap Cells(r2.a, r2.n) = {}
 InsidePartition(live, c) == \A r \in live : Inside(c, r.a, r.n)
